@@ -102,6 +102,46 @@ def read_corpus(prop_id):
 
 
 # ---------------------------------------------------------------- sequences
+def via_slicing(data, wcs, wseed, **kw):
+    """The same cube - same data, same coordinates at every element - reached by slicing a larger cube by ranges
+    with other starts on every axis: what the library is handed when its input is itself a result (a slicing
+    wrapper around the WCS, data that do not own their memory).  None when the WCS family is not one whose origin
+    can be moved (then the caller builds the cube directly)."""
+    import random
+    from astropy.wcs import WCS
+    from ndcube import NDCube
+    import wcsfam as W
+    if not isinstance(data, np.ndarray) or data.ndim == 0:
+        return None
+    shape = tuple(data.shape)
+    rng = random.Random(wseed * 31 + 7)
+    starts = [rng.randint(0, 2) for _ in shape]
+    if not any(starts):
+        starts[-1] = 1
+    ends = [rng.randint(0, 1) for _ in shape]
+    big_shape = tuple(a + n + e for a, n, e in zip(starts, shape, ends))
+    spix = np.array(starts[::-1], dtype=float)
+    if isinstance(wcs, W.ProbeWCS):
+        if wcs._bounds is not None or (wcs._shape is not None and tuple(wcs._shape) != shape):
+            return None
+        big_wcs = W.ProbeWCS(wcs.A, wcs.b - wcs.A @ spix, shape=None if wcs._shape is None else big_shape,
+                             units=wcs._un, names=wcs._names, ptypes=wcs._pt)
+    elif isinstance(wcs, WCS):
+        if wcs.array_shape is not None and tuple(wcs.array_shape) != shape:
+            return None
+        had_shape = wcs.array_shape is not None
+        big_wcs = wcs.deepcopy()
+        big_wcs.wcs.crpix = big_wcs.wcs.crpix + spix
+        big_wcs.wcs.set()
+        big_wcs.array_shape = big_shape if had_shape else None
+    else:
+        return None
+    big = np.full(big_shape, -7, dtype=data.dtype)
+    box = tuple(slice(a, a + n) for a, n in zip(starts, shape))
+    big[box] = data
+    return NDCube(big, wcs=big_wcs, **kw)[box]
+
+
 def build_cube(shape, cube_id, fam, wseed, with_shape=True, kind="numpy", shift=0):
     """A cube with a self-identifying payload and a WCS of the given family."""
     import random
@@ -111,6 +151,10 @@ def build_cube(shape, cube_id, fam, wseed, with_shape=True, kind="numpy", shift=
     wcs = W.make_wcs(rng, tuple(shape), fam, with_shape)
     if shift and isinstance(wcs, W.ProbeWCS):
         wcs.b = wcs.b + shift
+    if wseed % 7 == 3 and kind == "numpy":
+        cube = via_slicing(payload(tuple(shape), cube_id, kind), wcs, wseed, meta={"cube": cube_id})
+        if cube is not None:
+            return cube
     return NDCube(payload(tuple(shape), cube_id, kind), wcs=wcs, meta={"cube": cube_id})
 
 
